@@ -10,7 +10,7 @@
 EXTENDS LoaderEvents, Json, TLCExt
 EvTrace == ndJsonDeserialize(IOEnv.TRACE_FILE)
 VARIABLE l
-StepOf(p) == Load(p) \/ RawLoad(p) \/ Deferred(p) \/ (p = Main /\ M(p)) \/ (p \in Thr /\ T(p))
+StepOf(p) == Load(p) \/ RawLoad(p) \/ Deferred(p) \/ TLoad(p) \/ TRawLoad(p) \/ TDeferred(p) \/ (p = Main /\ M(p)) \/ (p \in Thr /\ T(p))
 TInit == Init /\ l = 1 /\ TLCSet(1, 1)
 Silent == \E p \in Procs : /\ IsLocal(p) /\ \A q \in Procs : q < p => ~IsLocal(q)
                           /\ StepOf(p) /\ l' = l
